@@ -116,7 +116,8 @@ Print Assumptions C18_outer_spaces_same_tree.
    whose steps mean the same — navigate alike from every value (same_step) — are both accepted and return the same results,
    or both fail.  And these spellings mean the same: .name / ['name'] / ["name"]; .* / [*]; an index, or the bounds of a
    slice, written with a plus sign or leading zeros (only the number counts: C18_plus_sign_partial, C18_leading_zero_partial
-   give atoi); a filter whose inner steps are respelled; a comparison whose literal is another spelling of the same number. *)
+   give atoi); a filter whose inner steps are respelled; a comparison whose literal is another spelling of the same number; a comparison
+   with blanks around its operator; the same after `..`. *)
 From JP Require Import FiltParse CmpParse QueryParse FiltChain FiltAddr CmpAddr FiltChainAddr SpellText.
 Theorem C18_equivalent_spellings_from_text : forall cfg parse_float regex_ok ffun afun regex_match,
   (forall f v w, small v -> ffun f v = Some w -> small w) ->
@@ -146,7 +147,9 @@ Theorem C18_spellings_that_mean_the_same : forall parse_float regex_match,
   (forall a b, same_rstep a b -> same_step parse_float regex_match (FS a) (FS b)) /\
   (forall i j, Forall2 same_rstep i j -> same_step parse_float regex_match (FE i) (FE j) /\ same_step parse_float regex_match (FN i) (FN j)) /\
   (forall i j o lit lit', Forall2 same_rstep i j -> lit_num parse_float lit = lit_num parse_float lit' ->
-     same_step parse_float regex_match (FC i o lit) (FC j o lit')).
+     same_step parse_float regex_match (FC i o lit) (FC j o lit')) /\
+  (forall i a o b lit, same_step parse_float regex_match (FC i o lit) (FCS i a o b lit)) /\
+  (forall x y, same_step parse_float regex_match x y -> same_step parse_float regex_match (FR x) (FR y)).
 Proof.
   intros pf rm.
   split; [intros q k; split; [apply same_plain|apply same_rec]; intros lv; apply name_spellings|].
@@ -156,7 +159,9 @@ Proof.
   split; [intros a b c a' b' c' Ha Hb Hc; apply same_plain; intros lv; apply slice_spellings; assumption|].
   split; [intros a b H; apply same_fs; exact H|].
   split; [intros i j H; split; [apply filter_spellings|apply negation_spellings]; exact H|].
-  intros i j o lit lit' H E. apply comparison_spellings; assumption.
+  split; [intros i j o lit lit' H E; apply comparison_spellings; assumption|].
+  split; [intros i a o b lit; apply spaced_comparison_spellings|].
+  intros x y H. apply rec_filter_spellings. exact H.
 Qed.
 Print Assumptions C18_spellings_that_mean_the_same.
 
